@@ -763,6 +763,17 @@ func (c *Ctx) applyContract(s *State, fr *Frame, x ssa.Instruction, fc *FuncCont
 }
 
 func (c *Ctx) applyContractAt(s *State, fr *Frame, site string, pos token.Pos, fc *FuncContract, calleeName string, names []string, recvName string, args []Val, sig *types.Signature, calleePkg *ssa.Package) Val {
+	// every contract that is used without being proved is an assumption of this check
+	switch {
+	case fc.Trusted != "":
+		c.assumptions["assumed contract (trusted, not verified): "+shortPkg(fc.Pkg)+"."+fc.Key+" — "+fc.Trusted] = true
+	case fc.IsExtern:
+		c.assumptions["assumed contract (extern, outside the repository): "+fc.Key] = true
+	case fc.IsIface:
+		c.assumptions["assumed contract (interface method, implementations not verified against it): "+fc.Key] = true
+	case len(fc.Props) == 0 && !fc.Inline:
+		c.assumptions["contract used but not owned by any claimed property (verified only with `govc vc`): "+shortPkg(fc.Pkg)+"."+fc.Key] = true
+	}
 	env := c.newSpecEnv(s, fr)
 	if calleePkg != nil {
 		env.pkg = calleePkg.Pkg
